@@ -723,3 +723,66 @@ def rule_end_sum_terms(ctx):
                         ctx.holds("ENDSUM", key, f.where(t.get("l")), "`%s` contains position and length" % rr[:70], nontrivial=True)
     ctx.floor("ENDSUM", 2, n, "(INT32_MAX guards in Hwrite)")
     return n
+
+
+def rule_dd_length_nonnegative(ctx):
+    """NEGLEN (C20, C01): a length that a public routine receives from its caller and stores in a descriptor (HTPupdate) is first
+    compared with 0.  A negative length in a descriptor makes the element unreadable (its length can no longer be told from the
+    failure value) and corrupts every sum computed from it."""
+    prog = ctx.prog
+    n = 0
+    for f in prog.lib_funcs():
+        if not f.rel.startswith("hdf/src/") or not prog.is_public(f.name):
+            continue
+        params = {p[0] for p in f.params}
+        dom = None
+        for bid, i, s, c in f.calls():
+            if c[1] != "HTPupdate" or len(c[3]) < 3:
+                continue
+            a = _underlying(c[3][2])
+            if kind(a) != "var" or a[1] not in params:
+                continue
+            n += 1
+            key = "NEGLEN:%s:%s" % (f.name, a[1])
+            if dom is None:
+                dom = f.dominators()
+            ok = False
+            for b in dom.get(bid, ()):
+                t = f.blocks[b].get("term")
+                if not t or t.get("cond") is None:
+                    continue
+                for y in walk(t["cond"], True):
+                    if y[0] == "bin" and y[1] in ("<", "<=") and kind(strip(y[2])) == "var" and strip(y[2])[1] == a[1] and is_int(y[3]) and int_val(y[3]) in (0, 1):
+                        ok = True
+                    if y[0] == "bin" and y[1] in (">", ">=") and kind(strip(y[3])) == "var" and strip(y[3])[1] == a[1] and is_int(y[2]) and int_val(y[2]) in (0, 1):
+                        ok = True
+            via = None
+            if not ok:
+                # the value was handed to a routine that refuses negative values itself, and whose failure ends this routine
+                for b in dom.get(bid, ()):
+                    t = f.blocks[b].get("term")
+                    if not t or t.get("cond") is None:
+                        continue
+                    for k in calls_in(t["cond"], True):
+                        for pos, arg in enumerate(k[3]):
+                            ua = _underlying(arg)
+                            if kind(ua) == "var" and ua[1] == a[1] and k[1]:
+                                g = prog.func(k[1])
+                                if g is None or pos >= len(g.params):
+                                    continue
+                                gp = g.params[pos][0]
+                                for gb in g.blocks.values():
+                                    gt = gb.get("term")
+                                    if gt and gt.get("cond") is not None:
+                                        for y in walk(gt["cond"], True):
+                                            if y[0] == "bin" and y[1] in ("<", "<=") and kind(strip(y[2])) == "var" and strip(y[2])[1] == gp and is_int(y[3], 0):
+                                                via = g.name
+            if via:
+                ctx.holds("NEGLEN", key, f.where(c[5]), "`%s` was first handed to %s, which refuses negative values and whose failure ends %s" % (a[1], via, f.name), nontrivial=True)
+            elif ok:
+                ctx.holds("NEGLEN", key, f.where(c[5]), "`%s` is compared with 0 before it is stored in the descriptor" % a[1], nontrivial=True)
+            else:
+                ctx.violated("NEGLEN", key, f.where(c[5]), "the caller's `%s` is stored as the element's length in the descriptor without having been compared with 0: a negative length "
+                             "is accepted and the element becomes unreadable" % a[1])
+    ctx.floor("NEGLEN", 1, n, "(caller-supplied lengths stored in a descriptor)")
+    return n
